@@ -2,7 +2,7 @@
 from pyvc.api import *
 
 PROP = 'C14'
-REPLAYERS = {}
+REPLAYERS = {q: 'replayers/heap_ops.py' for q in ('heap.Heap._absorb', 'heap.Heap._free', 'heap.Heap._malloc')}
 
 ASSUMPTIONS = [
     'bisect.bisect_left / bisect.insort have their documented contracts on a sorted list (assumed)',
@@ -11,7 +11,15 @@ ASSUMPTIONS = [
     'encoding: every list carries a ghost multiset view (count of each value) kept in step by the encoded list operations; '
     '"an element of a list occurs in it" and "an empty list contains nothing" are the links assumed between the two views',
 ]
-OUT_OF_REACH = ['two threads both inside the locked region (excluded by the lock, whose correctness is assumed)']
+OUT_OF_REACH = [
+    'two threads both inside the locked region (excluded by the lock, whose correctness is assumed); reentrancy of free() from a '
+    'GC finalizer (the try-lock / pending-list protocol; the seeded change C14-a swaps the Lock for an RLock): a property of '
+    'interleavings, not of one call',
+    'the public wrappers malloc / free / _free_pending_blocks (lock, pending list, splitting the block returned by _malloc and '
+    'freeing its tail) are compositions of the three operations proved here and are NOT yet under contract: that the '
+    'invariant holds between public calls is not closed by this check; the replayer runs them (bounded: all sequences of up '
+    'to 5 operations + 3000 random ones)',
+]
 TRUSTED = []
 
 BLK = tup(ref('Arena'), IntS, IntS)
@@ -106,6 +114,7 @@ _CLA0 = ['block_disjoint_from_allocated', 'prev_extent_clear_of_allocated', 'nex
 _CLR = ['merged_extent_clear_of_free']
 _CLA = ['merged_extent_clear_of_allocated']
 FREE_USES = {
+    'other_free_blocks_untouched': [],
     'merged_extent_clear_of_free': _SE + _CLR0 + ['no_two_free_blocks_touch'],
     'merged_extent_clear_of_allocated': _CLA0 + ['allocated_blocks_wf'],
     'allocated_blocks_wf': ['allocated_blocks_wf'],
@@ -240,6 +249,16 @@ def build(w):
                      merged_block_is_free='has(%s, (block[0], final.start)) and get(%s, (block[0], final.start)) == '
                                           '(block[0], final.start, final.stop)' % (S, S),
                      covers_the_freed_block='final.start <= block[1] and block[2] <= final.stop',
+                     # nothing is lost and nothing else is taken: the new free extent is exactly the freed block plus
+                     # the free blocks that were adjacent to it
+                     merged_with_exactly_the_adjacent_free_blocks=
+                         'final.start == ite(old(has(%s, (block[0], block[1]))), old(get(%s, (block[0], block[1])))[1], block[1]) and '
+                         'final.stop == ite(old(has(%s, (block[0], block[2]))), old(get(%s, (block[0], block[2])))[2], block[2])'
+                         % (E, E, S, S),
+                     other_free_blocks_untouched=Forall(AX,
+                         'implies(not (a == block[0] and final.start <= x and x < final.stop), '
+                         'has(%s, (a, x)) == old(has(%s, (a, x))) and '
+                         'implies(has(%s, (a, x)), %s == old(%s)))' % (S, S, S, SB, SB)),
                      allocated_set_untouched='only_key_changed(%s)' % A),
     )
 
@@ -274,7 +293,14 @@ def build(w):
                      no_new_arena_while_a_free_extent_is_large_enough=Forall(
                          AX, 'implies(g.arenas_mapped != old(g.arenas_mapped) and old(has(%s, (a, x))), '
                              'old(%s[2] - x) < size)' % (S, SB)),
-                     at_most_one_new_arena='g.arenas_mapped <= old(g.arenas_mapped) + 1'),
+                     at_most_one_new_arena='g.arenas_mapped <= old(g.arenas_mapped) + 1',
+                     # exactly one free block leaves the free set, or a whole new arena is handed out
+                     takes_one_free_block_or_a_whole_new_arena=
+                         'ite(g.arenas_mapped == old(g.arenas_mapped), '
+                         'old(has(%s, (result[0], result[1]))) and old(get(%s, (result[0], result[1]))) == result, '
+                         'fresh(result[0]) and result[1] == 0 and result[2] == result[0].size)' % (S, S),
+                     other_free_blocks_untouched=Forall(AX,
+                         'implies(not (a == result[0] and x == result[1]), has(%s, (a, x)) == old(has(%s, (a, x))))' % (S, S))),
     )
     return [absorb, free_, malloc_]
 
@@ -317,3 +343,23 @@ def ext_bisect_left(ex, args, kw):
     v = z3.Int(fresh_name('v'))
     P.assume(z3.ForAll([v], z3.Implies(z3.And(r.e == ln, cnt_get(ex, lst, SV(IntS, v)).e >= 1), v < as_arith(x))))
     return r
+
+
+MANIFEST_ENTRY = {
+    'text': 'Proof (unbounded: any number of arenas, free and allocated blocks, any sizes) that the three internal operations of the '
+            'heap preserve its representation invariant against the abstract view "set of free extents, set of allocated '
+            'extents": free extents are 8-aligned, inside their arena, pairwise disjoint, never adjacent (always merged), the '
+            'start and stop indexes mirror each other, allocated extents are aligned, inside their arena, pairwise disjoint and '
+            'disjoint from every free extent, only existing arenas occur, and the length index (buckets by length + the '
+            'sorted list of lengths, stated over a multiset view of the lists) lists exactly the free extents, each once.  '
+            '_absorb removes exactly the given free block from all indexes; _free (through _absorb\'s contract, with the '
+            'facts about the neighbours carried across the calls as proved lemmas) registers the block merged with its free '
+            'neighbours -- exactly the adjacent ones, so that nothing is lost -- and touches no other free block; _malloc takes '
+            'exactly one free block out of the free set or hands out a whole new arena, and returns a block that is large enough, aligned, inside its arena, no longer '
+            'free, disjoint from every free and every allocated block, and maps a new arena only when no free extent is large '
+            'enough.',
+    'note': 'The public wrappers malloc / free / _free_pending_blocks (locking, the pending list, splitting off and re-freeing the '
+            'tail of the block _malloc returns) are not under contract: the inductive argument over public calls is not closed '
+            'by this check (the replayer exercises them, bounded).  bisect, Arena(length) and the lock are assumed contracts; '
+            'reentrancy from a GC finalizer (seeded change C14-a) is outside sequential contracts.',
+}
